@@ -766,13 +766,9 @@ def entries(real):
     add(Entry("delegatedCredentialStruct", "DelegatedCredential", dc_build, DelegatedCredential, dc_val))
 
     # ---- extension_data of every class, and whole extensions in every context
-    def cks_wf(v, rng):
-        # client_shares=None is what parse() gives for empty extension_data but extData cannot write it
-        return S(L([])) if v[0] == 'N' else v
     for cls, py in EXT_PY.items():
         add(Entry("extdata:" + cls, py, (lambda v, cls=cls: ext_build(cls, v)), getattr(E, py),
-                  (lambda o: ext_body_val(o)[1]), exact=True, write=lambda o: o.extData,
-                  wellformed=cks_wf if cls == "clientKeyShare" else None))
+                  (lambda o: ext_body_val(o)[1]), exact=True, write=lambda o: o.extData))
     for ctx, flags in CTX_FLAGS.items():
         def ext_parse(data, flags=flags):
             p = plain_parser(data)
